@@ -247,7 +247,7 @@ func init() {
 				break
 			}
 		}
-		if allConc && !in.ghost.crcAlwaysUF {
+		if allConc && in.ghost.crcNative {
 			return uint64(crc32.Update(uint32(crc.(uint64)), crc32.IEEETable, in.concBytes(s, "crc")))
 		}
 		c := in.lift(crc, 32)
